@@ -16,6 +16,7 @@ LEVEL_NOTE = "Trusted: numpy float64 scalar arithmetic as the pointwise referenc
 RULE = ('random tuples of 2-4 operands among Series, 1-3 column DataFrames and scalars on a 12-day grid (overlapping, disjoint, empty indices; values in {-2..3, 0, NaN}), both index '
         'policies x both column policies, operators add/sub/mul/div/pow/gt/ge/lt/le/min/max and df_sum/df_mean/df_count; non-trivial = partially overlapping indices with a zero or NaN in '
         'the overlap, or differing column sets; distinct = canonical hash')
+RULE_ALSO = '; 12% of the cases give their operands indices that carry a frequency (pd.date_range), mostly one step with random phases; 3% use a 150-point grid'
 ASSUMPTIONS = ['fill methods are not varied here (C03 covers them)', 'multi-column frames in one call share at least one column name; column order of the result is not compared',
                'a single-column frame acts as a series: the result may be a Series or a one-column frame', 'df_sum/df_mean/df_count operands are all Series or all multi-column frames',
                'a scalar-zero denominator returning a scalar NaN (or one NaN per column) is accepted']
@@ -36,6 +37,10 @@ def live(o):
     if o['k'] == 'scalar':
         return NAN if o['v'] is None else o['v']
     idx = pd.DatetimeIndex([T0 + datetime.timedelta(days=i) for i in o['ts']])
+    fr = o.get('freq')
+    if fr and len(o['ts']) >= 1 and list(o['ts']) == list(range(o['ts'][0], o['ts'][0] + fr * len(o['ts']), fr)):
+        # an index that knows its own frequency (pd.date_range / resample / asfreq): two operands may share the step and be out of phase
+        idx = pd.date_range(T0 + datetime.timedelta(days=o['ts'][0]), periods=len(o['ts']), freq=datetime.timedelta(days=fr))
     f = lambda v: NAN if v is None else float(v)
     if o['k'] == 'series':
         return pd.Series([f(v) for v in o['v']], index=idx, dtype=float)
@@ -366,6 +371,7 @@ VALS = [-2, -1, 0, 0, 1, 2, 3, None, None, 0.5]
 
 
 _GRID = [12]
+_FREQ = [None]     # set per case: the operands' indices carry a frequency (mostly the same one, out of phase)
 
 
 def gen_operand(rng, kind, names_pool):
@@ -379,14 +385,24 @@ def gen_operand(rng, kind, names_pool):
         ts = list(range(a, b + 1))
     else:
         ts = sorted(rng.sample(range(_GRID[0]), rng.randint(1, _GRID[0])))
+    freq = None
+    if _FREQ[0] and rng.random() < 0.7:
+        freq = _FREQ[0] if rng.random() < 0.8 else rng.choice([1, 2, 3])
+        a = rng.randrange(freq + 1)
+        ts = list(range(a, _GRID[0], freq))[:rng.randint(1, _GRID[0])]
     if kind == 'series':
-        return {'k': 'series', 'ts': ts, 'v': [rng.choice(VALS) for _ in ts]}
-    k = 1 if kind == 'frame1' else rng.choice([2, 3])
-    names = names_pool(k)
-    return {'k': 'frame', 'ts': ts, 'names': names, 'cols': [[rng.choice(VALS) for _ in ts] for _ in range(k)]}
+        res = {'k': 'series', 'ts': ts, 'v': [rng.choice(VALS) for _ in ts]}
+    else:
+        k = 1 if kind == 'frame1' else rng.choice([2, 3])
+        names = names_pool(k)
+        res = {'k': 'frame', 'ts': ts, 'names': names, 'cols': [[rng.choice(VALS) for _ in ts] for _ in range(k)]}
+    if freq:
+        res['freq'] = freq
+    return res
 
 
 def gen_case(rng):
+    _FREQ[0] = rng.choice([1, 2, 2, 3]) if rng.random() < 0.12 else None
     _GRID[0] = 12 if rng.random() > 0.03 else 150        # a few long series in every tier: any size-dependent path (fast joins, batched reductions) is reached
     op = rng.choice(['add', 'add', 'sub', 'mul', 'mul', 'div', 'div', 'pow', 'gt', 'ge', 'lt', 'le', 'min', 'max', 'df_sum', 'df_mean', 'df_count'])
     join = rng.choice(['ij', 'oj'])
